@@ -7,11 +7,12 @@
      PSyncC.v    a rejected snapshot / format is never offered again; the loop never runs dry
      PSyncD.v    refetch and retry requests are honoured by applyChunks
      PSpec.v     State()/AppHash()/Commit()/verifyApp against the specification of Spec.v
+     PBoot.v     state.Store.Bootstrap/Save/LoadValidators/LoadConsensusParams against the store specifications of Spec.v
    This file re-exports them and closes the history-level statements whose hypotheses are
    discharged by SInv_reach. *)
 From Coq Require Import String List ZArith NArith Bool Lia.
 From TM Require Import Common.Hex Generated.Consts C14.Model.
-From TM Require Export C14.PQueue C14.PPool C14.PSyncDefs C14.PSyncA C14.PSyncB C14.PSyncC C14.PSyncD C14.PSpec.
+From TM Require Export C14.PQueue C14.PPool C14.PSyncDefs C14.PSyncA C14.PSyncB C14.PSyncC C14.PSyncD C14.PSpec C14.PBoot.
 Import ListNotations. Open Scope Z_scope.
 
 (* the refinement, started from the empty specification queue *)
